@@ -8,6 +8,7 @@ mathematical value.  `val w a` is the little-endian value of `a` in base `2^w`,
 -/
 import Bee2V.C05.LemmasAdd
 namespace Bee2V.C05
+open Bee2V.C05.Add
 
 /-! ## 1. zz_add.c : addition and subtraction with carry / borrow -/
 
